@@ -437,15 +437,21 @@ class Doc(object):
         lib = self.el('library_visual_scenes')
         for _ in range(r.randint(1, 2)):
             s = self.sub(lib, 'visual_scene', id=self.uid('scene'))
-            k = r.randint(0, 3)
+            chain = r.random() < 0.3
+            k = r.randint(3, 4) if chain else r.randint(0, 3)
             rootids = [self.uid('root') for _ in range(k)]
             roots = []
             for i in range(k):
                 n = self.node(2, self.ids.get('nodes', []) + rootids[i + 1:])
                 n.set('id', rootids[i])
+                if chain and i + 1 < k:
+                    # a chain of references through the top-level nodes: each instantiates the next one
+                    n.insert(len([c for c in n if c.tag.split('}')[1] in ('asset', 'translate', 'rotate', 'scale', 'matrix', 'lookat', 'skew')]),
+                             self.el('instance_node', url='#' + rootids[i + 1]))
                 roots.append(n)
             order = list(range(k))
-            r.shuffle(order)
+            if not chain or r.random() < 0.5:       # (a chain left in document order refers forward at every hop)
+                r.shuffle(order)
             for i in order:
                 s.append(roots[i])
             self.ids.setdefault('scenes', []).append(s.get('id'))
